@@ -1,4 +1,5 @@
 import Crv.Paths
+import Crv.Proofs.Skeleton
 import Crv.Generated.Paths
 import Crv.Proofs.Paths
 import Crv.Proofs.PathsOps
@@ -333,5 +334,20 @@ example : let s := runEvs pathFacts exSys (exHistory ++ [.cleanup])
 
 example : Idle exSys [] := ⟨rfl, rfl, rfl, rfl⟩
 end examples
+
+/-- The hand-written `Loader` model this property rests on was transcribed from exactly these sources: the fingerprints are
+recomputed from /repo on every run (tools/extract/skeleton.go), so any change to one of the functions breaks this obligation. -/
+theorem loader_sources_as_transcribed : Crv.Generated.skeletonLoader = Crv.Skeleton.expectedLoader :=
+  Crv.Skeleton.loader_sources_as_transcribed
+
+/-- The hand-written `Repo` model this property rests on was transcribed from exactly these sources: the fingerprints are
+recomputed from /repo on every run (tools/extract/skeleton.go), so any change to one of the functions breaks this obligation. -/
+theorem repo_sources_as_transcribed : Crv.Generated.skeletonRepo = Crv.Skeleton.expectedRepo :=
+  Crv.Skeleton.repo_sources_as_transcribed
+
+/-- The hand-written `Store` model this property rests on was transcribed from exactly these sources: the fingerprints are
+recomputed from /repo on every run (tools/extract/skeleton.go), so any change to one of the functions breaks this obligation. -/
+theorem store_sources_as_transcribed : Crv.Generated.skeletonStore = Crv.Skeleton.expectedStore :=
+  Crv.Skeleton.store_sources_as_transcribed
 
 end Crv.Props.C20
